@@ -61,7 +61,7 @@ class Ex:
             if fs and isinstance(fs[0], tuple) and fs[0][0] == "f" and fs[0][1] in self.upvars:
                 rest = proj[proj.index(fs[0]) + 1:]
                 return ("path", self.upvars[fs[0][1]], self.fields_of(rest))
-        d = self.tr.single_def(l)
+        d = self.tr.single_def(l) or self.variant_def(l, proj)
         fields = self.fields_of(proj)
         if d is not None and depth < 80:
             base = self.of_def(d, depth + 1)
@@ -72,7 +72,9 @@ class Ex:
                     return ("path", base[1], base[2] + fields)
                 if base[0] == "agg" and proj:
                     # select aggregate component
-                    fs = [e for e in proj if e != "deref" and not (isinstance(e, tuple) and e[0] == "dc")]
+                    fs = [e for e in proj if e != "deref"]
+                    if fs and isinstance(fs[0], tuple) and fs[0][0] == "dc":
+                        fs = fs[1:]                 # the variant of this aggregate; later downcasts stay
                     if fs and isinstance(fs[0], tuple) and fs[0][0] == "f" and fs[0][1] < len(base[2]):
                         inner = base[2][fs[0][1]]
                         rest = self.fields_of(fs[1:])
@@ -95,6 +97,87 @@ class Ex:
                 return ("proj", ("var", self.b.local_name(l), l), fields)
             return ("var", self.b.local_name(l), l)
         return ("path", self.root_name(l), fields)
+
+    def variant_def(self, l, proj):
+        """`(x as V).k` where x has several whole definitions: only a definition that builds variant V can be
+        the one read (the others build a sibling variant, or are the `Err`/`None` made by `?`).  Returns that
+        definition when it is unique - e.g. the return slot of an inlined helper with several `bail!` exits."""
+        ds = self.tr.defs.get(l, [])
+        if len(ds) < 2 or l <= self.b.raw["arg_count"]:
+            return None
+        first = next((e for e in proj if e != "deref"), None)
+        if not (isinstance(first, tuple) and first[0] == "dc"):
+            return None
+        keep = []
+        for d in ds:
+            lhs = d[3]["p"] if d[2] == "assign" else (d[3]["dest"] if d[2] == "call" else None)
+            if lhs is None or lhs["p"]:
+                return None
+            if d[2] == "assign" and d[3]["rv"]["r"] == "agg" and d[3]["rv"].get("kind") == "adt":
+                if d[3]["rv"].get("variant") == first[1]:
+                    keep.append(d)
+                continue
+            if d[2] == "call" and ((d[3].get("f") or {}).get("n") or "").endswith("FromResidual::from_residual") \
+                    and first[2] in ("Ok", "Some"):
+                continue
+            return None
+        return keep[0] if len(keep) == 1 else None
+
+    def select_variant(self, e, depth=0):
+        """Rewrite `(_N).@V.k...` (as produced by undoing a `?`) where _N has several definitions of which one
+        builds variant V: the k-th operand of that aggregate (see variant_def)."""
+        if not isinstance(e, tuple) or not e or depth > 40:
+            return e
+        if e[0] in ("proj", "path"):
+            base, flds = (e[1], tuple(e[2])) if e[0] == "proj" else (("path", e[1], ()), tuple(e[2]))
+            if e[0] == "proj":
+                base = self.select_variant(base, depth + 1)
+                if base[0] == "path" and base[2]:
+                    base, flds = ("path", base[1], ()), tuple(base[2]) + flds
+            l = None
+            if base[0] == "var":
+                l = base[2]
+            elif base[0] == "path" and not base[2] and isinstance(base[1], str) and base[1][:1] == "_" and base[1][1:].isdigit():
+                l = int(base[1][1:])
+            if l is not None and len(flds) >= 2 and flds[0][:1] == "@" and flds[1].isdigit():
+                vname = flds[0][1:]
+                ds = self.tr.defs.get(l, [])
+                keep, ok = [], len(ds) >= 1 and l > self.b.raw["arg_count"]
+                for d in ds:
+                    lhs = d[3]["p"] if d[2] == "assign" else (d[3]["dest"] if d[2] == "call" else None)
+                    if lhs is None or lhs["p"]:
+                        ok = False
+                        break
+                    if d[2] == "assign" and d[3]["rv"]["r"] == "agg" and d[3]["rv"].get("kind") == "adt":
+                        if d[3]["rv"].get("vname") == vname:
+                            keep.append(d)
+                        continue
+                    if d[2] == "call" and ((d[3].get("f") or {}).get("n") or "").endswith("FromResidual::from_residual") \
+                            and vname in ("Ok", "Some"):
+                        continue
+                    ok = False
+                    break
+                k = int(flds[1])
+                if ok and len(keep) == 1 and k < len(keep[0][3]["rv"]["ops"]):
+                    inner = self.select_variant(simplify(self._operand(keep[0][3]["rv"]["ops"][k], 1)), depth + 1)
+                    rest = flds[2:]
+                    if not rest:
+                        return inner
+                    if inner[0] == "path":
+                        return ("path", inner[1], tuple(inner[2]) + rest)
+                    return ("proj", inner, rest)
+            if e[0] == "proj":
+                return ("proj", self.select_variant(e[1], depth + 1), e[2]) + tuple(e[3:])
+            return e
+        if e[0] == "ref":
+            return ("ref", self.select_variant(e[1], depth + 1)) + tuple(e[2:])
+        if e[0] == "call":
+            return ("call", e[1], tuple(self.select_variant(a, depth + 1) for a in e[2])) + tuple(e[3:])
+        if e[0] == "cast":
+            return ("cast", self.select_variant(e[1], depth + 1)) + tuple(e[2:])
+        if e[0] == "agg":
+            return ("agg", e[1], tuple(self.select_variant(a, depth + 1) for a in e[2])) + tuple(e[3:])
+        return e
 
     def of_def(self, d, depth):
         if d[2] == "call":
